@@ -5,6 +5,7 @@ import (
 	"sort"
 	"strings"
 	"testing"
+	"time"
 
 	"github.com/cybergarage/go-redis/redis"
 	"github.com/cybergarage/go-redis/redis/auth"
@@ -24,6 +25,10 @@ type churnConn struct {
 	plain  *client
 	tls    *tlsClient
 	keeper bool
+	// quit-then-trickle bookkeeping
+	trickle  bool
+	quitAt   time.Time
+	reported bool
 }
 
 func (cc *churnConn) pipe() *sim.Pipe {
@@ -62,6 +67,11 @@ func runC19(t *testing.T, tape *sim.Tape, tier string) *Outcome {
 	cl.YieldOn["connmgr.snapshot"] = tape.Draw(2, "y3") == 1
 	cl.YieldOn["connmgr.stopped"] = tape.Draw(2, "y4") == 1
 	cl.Sticky = tape.Draw(4, "sticky")
+	// simulated time passes at seed-chosen moments between the other events (timeouts, deadlines and timers of the
+	// code under test fire against this clock)
+	for i := tape.Draw(4, "nticks"); i > 0; i-- {
+		cl.Ticks = append(cl.Ticks, []time.Duration{50 * time.Millisecond, time.Second, 11 * time.Second, 61 * time.Second, 10 * time.Minute, 3 * time.Hour}[tape.Draw(6, "tick")])
+	}
 	if err := cl.startServer(); err != nil {
 		o.violate("harness:start", "Start failed: %v", err)
 		cl.finish()
@@ -80,6 +90,24 @@ func runC19(t *testing.T, tape *sim.Tape, tier string) *Outcome {
 	nextID := 0
 	bigVal := strings.Repeat("v", 600)
 
+	var tricklers []*churnConn
+	// quitCloseBound: how long after it answered QUIT a server may take to close the socket while the client keeps sending
+	const quitCloseBound = 30 * time.Second
+	trickleInv := func() {
+		for _, cc := range tricklers {
+			c := cc.plain
+			if c.P == nil || len(c.Vals) < 2 || !c.P.Ends[1].Accepted() {
+				continue
+			}
+			if cc.quitAt.IsZero() {
+				cc.quitAt = time.Now()
+			}
+			if time.Since(cc.quitAt) > quitCloseBound && !c.P.Ends[1].Closed() && !cc.reported {
+				cc.reported = true
+				o.violate("c19:quit-not-closed-while-client-keeps-sending", "connection c%d: %s of simulated time after the reply to QUIT the server still holds the socket open (the client keeps sending a byte every 400 ms)", c.P.ID, time.Since(cc.quitAt))
+			}
+		}
+	}
 	mk := func(mode string, keeper bool) *churnConn {
 		name := fmt.Sprintf("x%d", nextID)
 		nextID++
@@ -98,6 +126,24 @@ func runC19(t *testing.T, tape *sim.Tape, tier string) *Outcome {
 			m := map[string]int{"fin-inside-halfclose": endHalfClose, "fin-inside-close": endClose, "rst-inside": endReset}[mode]
 			cc.plain.End = endPlan{Mode: m, AfterTx: 1 + tape.Draw(stream()-1, "cut")}
 		case "quit":
+			if tape.Draw(3, "trickle") == 2 {
+				// after QUIT the client neither closes nor goes quiet: it keeps sending a byte every 400 ms of simulated
+				// time for a minute; the server has to close all the same (within quitCloseBound)
+				items := [][]byte{reqs[0], resp.Cmd("QUIT")}
+				pauses := map[int]time.Duration{}
+				for i := 0; i < 150; i++ {
+					pauses[len(items)] = 400 * time.Millisecond
+					items = append(items, []byte("x"))
+				}
+				cc.plain = cl.addClient(name, plainAddr, items)
+				cc.plain.PauseBefore = pauses
+				cc.plain.KeepSending = true
+				cc.plain.End = endPlan{Mode: -1}
+				cc.trickle = true
+				tricklers = append(tricklers, cc)
+				o.stat("quit_then_trickle", 1)
+				break
+			}
 			cc.plain = cl.addClient(name, plainAddr, [][]byte{reqs[0], resp.Cmd("QUIT"), reqs[2]})
 			cc.plain.Lockstep = tape.Draw(2, "lockstep") == 0
 		case "malformed-frame":
@@ -206,7 +252,7 @@ func runC19(t *testing.T, tape *sim.Tape, tier string) *Outcome {
 			}
 			done++
 		}
-		if !cl.run(40000, nil, nil) && len(o.Viol) == 0 {
+		if !cl.run(40000, trickleInv, nil) && len(o.Viol) == 0 {
 			o.violate("harness:budget", "step budget exhausted")
 		}
 		// TLS clients whose script is over end here (close or reset)
@@ -369,7 +415,7 @@ func init() {
 	register(&Check{
 		ID: "C19", Bubble: true, Run: runC19,
 		Runs:   map[string]int{"quick": 800, "thorough": 2400},
-		Rule:   "a case (evaluation) is one connection lifetime inside a churn run: plain and TLS ports, optional common-name rule, reference store; each run opens 30 (thorough 1500) connections in batches with up to 1..32 in flight, each ended by a drawn mode {FIN at a request boundary or inside a request (half-close/close), RST at boundary/inside, QUIT, malformed frame, write failure after the client stopped reading, TLS garbage / abort after ClientHello / untrusted certificate / certificate rejected by the rule, TLS session then close or reset, idle then close}, interleaved by the seeded scheduler; some stay idle across batches; a third of the runs end with Stop (half of them after a Start that fails because the server is running) while connections are idle, mid-request, mid-handshake, inside a handler call and blocked in a reply write; accounting (socket closed, goroutine gone, registry entry gone; idle baseline at the end) at every drain point; distinct = distinct event-log hashes of runs",
+		Rule:   "a case (evaluation) is one connection lifetime inside a churn run: plain and TLS ports, optional common-name rule, reference store; each run opens 30 (thorough 1500) connections in batches with up to 1..32 in flight, each ended by a drawn mode {FIN at a request boundary or inside a request (half-close/close), RST at boundary/inside, QUIT (a third of them followed by a client that keeps sending a byte every 400 ms for a simulated minute: the socket must be closed within 30 s all the same), malformed frame, write failure after the client stopped reading, TLS garbage / abort after ClientHello / untrusted certificate / certificate rejected by the rule, TLS session then close or reset, idle then close}, interleaved by the seeded scheduler; some stay idle across batches; a third of the runs end with Stop (half of them after a Start that fails because the server is running) while connections are idle, mid-request, mid-handshake, inside a handler call and blocked in a reply write; accounting (socket closed, goroutine gone, registry entry gone; idle baseline at the end) at every drain point; distinct = distinct event-log hashes of runs",
 		Real:   []string{"redis.Server accept loops, TLS handshake goroutine, connection loop, ConnManager, Stop", "crypto/tls"},
 		Stub:   []string{"network: simulated (descriptor count = server-side ends not yet closed; real descriptors do not exist in the simulation)", "handler: reference store"},
 		Assume: []string{"the idle baseline is the set of parked server tasks right after Start (one accept loop per enabled port)"},
